@@ -98,6 +98,8 @@ def do_run(name, checks):
     finally:
         sh("git checkout -- .", cwd=REPO)
         sh("git clean -fdq -- .", cwd=REPO)
+        # the generated facts now describe the mutated tree: regenerate them from the reverted one
+        sh("bin/extract /repo lean/Verif/Generated work/facts.json", cwd=ROOT)
     meta["verified"] = result
     json.dump(meta, open(os.path.join(d, "meta.json"), "w"), indent=1)
     print(json.dumps(result, indent=1))
